@@ -6,6 +6,7 @@ from gen import classes
 class C03(common.SpecCheck):
     pid = "C03"
     title = "Occupancy partitioning and flattening never change the result"
+    QUICK = {"nseeds": 8, "specs": 300, "round": 300, "budget": 0}
     rule = ("class-O specs (random product Einsum of 2-4 ranks; uniform_occupancy stacks of 1-2 levels with any "
             "input tensor holding the rank as leader, alone or beneath a uniform_shape split; or flatten() of 2-3 "
             "ranks of one tensor, optionally under a shape split, optionally followed by 1-2 occupancy levels on "
